@@ -262,7 +262,7 @@ func checkC04(r *Run) {
 			if allMasked {
 				g = withUnmaskedAlternatives(g)
 			}
-			ok, detail := m.checkGuard(h, b.Site.St, g, m.DB.Exits[root])
+			ok, detail := m.checkGuard(h, b.Site.St, g, m.exitsDeep(root))
 			key := fmt.Sprintf("%s: guard %q", b.Key(), g.Name)
 			if ok {
 				r.ok("r4", key, b.Site.Call.Pos(), "%s", detail)
@@ -605,7 +605,7 @@ func c04WalkGuards(r *Run, m *ServerModel, hinfo map[*FuncInfo]*HandlerInfo) {
 				continue
 			}
 			g := Guard{"walk in place from an opened fid", []Lit{L(true, "$fid.opened"), L(true, "$t.fid == $t.newFID", "$t.newFID == $t.fid")}, 16}
-			ok, detail := m.checkGuard(h, cs.St, g, m.DB.Exits[fi])
+			ok, detail := m.checkGuard(h, cs.St, g, m.exitsDeep(fi))
 			key := fmt.Sprintf("p9.%s → doWalk: guard %q", nm, g.Name)
 			if ok {
 				r.ok("r4", key, cs.Call.Pos(), "%s", detail)
@@ -627,7 +627,7 @@ func c04WalkGuards(r *Run, m *ServerModel, hinfo map[*FuncInfo]*HandlerInfo) {
 			{"step from a non-directory", []Lit{L(false, b.Base+".mode.IsDir()")}, 22},
 			{"step from a deleted directory", []Lit{L(true, b.Base+".isDeleted()")}, 2},
 		} {
-			ok, detail := m.checkGuard(h, b.Outer.St, g, m.DB.Exits[dw])
+			ok, detail := m.checkGuard(h, b.Outer.St, g, m.exitsDeep(dw))
 			key := fmt.Sprintf("%s: guard %q", b.Key(), g.Name)
 			if ok {
 				r.ok("r4", key, b.Outer.Call.Pos(), "%s", detail)
@@ -658,7 +658,7 @@ func c04Misc(r *Run, m *ServerModel, hinfo map[*FuncInfo]*HandlerInfo) {
 				continue
 			}
 			g := Guard{"attach with an auth fid", []Lit{L(false, "$t.Auth.Authenticationfid == noFID", "noFID == $t.Auth.Authenticationfid")}, 22}
-			ok, detail := m.checkGuard(h, b.Site.St, g, m.DB.Exits[fi])
+			ok, detail := m.checkGuard(h, b.Site.St, g, m.exitsDeep(fi))
 			if ok {
 				r.ok("r4", "p9.tattach.handle: guard \"attach with an auth fid\"", b.Site.Call.Pos(), "%s", detail)
 			} else {
